@@ -372,6 +372,9 @@ func (c04KindsComp) Exec(op string) (result, monitor, class string, nontrivial b
 	if t := strings.Fields(op); len(t) == 6 || (len(t) == 1 && t[0] == "spellings") {
 		return c04ExecSpell(t) // second op form: every spelling the parser accepts, c04_spell.go
 	}
+	if t := strings.Fields(op); len(t) == 7 {
+		return c04ExecFront(t) // third op form: a scripted front-end where the configured URL points, c04_front.go
+	}
 	c, ok := parseC04Cell(op)
 	if !ok {
 		return "bad-op", "", "bad-op", false
@@ -417,6 +420,7 @@ func (c04KindsComp) Exec(op string) (result, monitor, class string, nontrivial b
 
 func (c04KindsComp) Gen(r *Rand, tier string, emit func(op string)) {
 	c04GenSpell(r, tier, emit)
+	c04GenFront(r, tier, emit)
 	bits := []string{"0", "1"}
 	for _, k := range c04Kinds {
 		if k == "dns" {
